@@ -103,6 +103,11 @@ CHECKS = {
     category='exploration', design='4/C11',
     text="~220 generated expressions per quick run over 15 registered intermediates (20 thorough): (intermediate tensor x free tensor) combinations, fully/once expanded, perturbed expansions (prefactor changed -> mixed-prefactor path, term dropped -> incomplete), random subsets / types / max_order requests; the repository's factor-test expressions; the ADC(2) ph/ph reduce+factor pipeline of the example script (thorough).",
     note="Trusted: TM evaluator; definitional arrays merged per (tensor name, rank). RE residual intermediates (tensor = placeholder 0) are exercised in C12, not here."),
+ 'C19': dict(
+    technique="runtime monitor: differential execution - every request of a catalogue runs in fresh interpreter processes under several PYTHONHASHSEEDs, after random prior API-call histories and from a scratch copy of the package with another tensor_names.json; the recorded results (F_p value fingerprints under two primes, text after substitute_contracted, term counts) are compared offline; in-process hooks on GroundState.psi / norm_factor check that results never share contracted indices",
+    category='exploration', design='4/C19',
+    text="16 requests (quick; 27 thorough) x 3 hash seeds x up to 4 random histories + alternative name configuration = ~140 process runs per quick run; ~18000 monitored psi / norm_factor calls. Text differences whose per-term value multisets agree are classified as the open finding F6.",
+    note="A defect that is the same in every run (deterministic wrong value) is invisible to this differential check; values are decided by C02-C05. Trusted: TM fingerprints."),
 }
 
 NOT_YET = {}
